@@ -263,7 +263,16 @@ fn parse_atoms(s: &str) -> Vec<Atom> {
 fn random_text(rng: &mut Rng) -> Vec<u8> {
 	let alphabet: &[u8] = b"0123456789abcdefABCDEF ?'%$*{}()|[]-\"@iuz\t\nxg,.~";
 	let n = rng.below(24) as usize;
-	(0..n).map(|_| if rng.chance(1, 30) { rng.range(0x20, 0x7e) as u8 } else { *rng.pick(alphabet) }).collect()
+	let mut out: Vec<u8> = Vec::new();
+	// third audit (F9): bytes outside 7-bit ASCII and the control characters next to the accepted white space (VT, FF, DEL,
+	// NUL; NBSP, a line separator and multi-byte letters as valid UTF-8), also inside quoted strings
+	const EXOTIC: [&[u8]; 10] = [b"\x0b", b"\x0c", b"\r", b"\x7f", b"\0", "\u{e9}".as_bytes(), "\u{20ac}".as_bytes(), "\u{a0}".as_bytes(), "\u{2028}".as_bytes(), "\u{1f600}".as_bytes()];
+	let exotic = rng.chance(1, 4);
+	for _ in 0..n {
+		if exotic && rng.chance(1, 6) { out.extend(*rng.pick(&EXOTIC)); if rng.chance(1, 2) { out.extend(b"\"a"); out.extend(*rng.pick(&EXOTIC)); out.push(b'"'); } }
+		else if rng.chance(1, 30) { out.push(rng.range(0x20, 0x7e) as u8); } else { out.push(*rng.pick(alphabet)); }
+	}
+	out
 }
 
 /// F40 shapes: braces that are not balanced inside an alternative (parse errors on both sides since the repair), and the two
